@@ -483,3 +483,7 @@ mod tests {
         assert_ptr_vec_vec_eq(s3fifo.dump(), vec![vec![], vec![]]);
     }
 }
+
+#[cfg(kani)]
+#[path = "/verif/harness/foyer-memory/s3fifo.rs"]
+mod verif_kani;
